@@ -21,7 +21,8 @@ RULE = ('Files of n = 1..6 (thorough 1..12) good IPM records get one fault plant
         'reference reading, then raise MciIpmDataError with record_number == k and binary_context_data == 4-byte prefix + record '
         '(framing faults: a prefix of prefix + available bytes that starts with the 4 length bytes); print_exception_details '
         'prints "Error detected in record k". Non-trivial = k > 1 or a message-level fault; distinct by digest of the file.')
-ASSUMPTIONS = ['the expected position comes from where the reference framing finds the first fault, not from where it was planted (an inflated prefix in a blocked file swallows terminator and fill and becomes a fault of that same record)',
+ASSUMPTIONS = ['records are pulled with one iterator or with iter(reader) renewed before a record (next() then a for loop, a loop resumed after break); the style is a function of the file length',
+               'the expected position comes from where the reference framing finds the first fault, not from where it was planted (an inflated prefix in a blocked file swallows terminator and fill and becomes a fault of that same record)',
                'records whose only deviation is a don\'t-care numeral (accepted by the lenient reference) are skipped']
 
 PACKAGED = gen_iso.packaged_config()
@@ -198,10 +199,18 @@ def check(data, blocked, codec, config, default_cfg):
     kw = dict(encoding=codec, blocked=blocked)
     if not default_cfg:
         kw['iso_config'] = config
-    reader = iter(mciipm.IpmReader(io.BytesIO(data), **kw))
+    raw_reader = mciipm.IpmReader(io.BytesIO(data), **kw)
     form = '1014' if blocked else 'vbs'
+    # consumption style: one iterator, or a fresh `iter(reader)` before every record (as in: skip a header with next(), then a
+    # for loop; or a loop left with break and resumed) - the reader is its own iterator, so both must behave alike
+    style = len(data) % 3
+    state = {'it': iter(raw_reader), 'n': 0}
 
     def step():
+        if style == 1 or (style == 2 and state['n'] % 2 == 1):
+            state['it'] = iter(raw_reader)
+        state['n'] += 1
+        reader = state['it']
         try:
             return 'rec', next(reader)
         except StopIteration:
